@@ -180,6 +180,20 @@ def const_value(node, env=None):
     if isinstance(node, (ast.Tuple, ast.List)):
         vals = [const_value(e, env) for e in node.elts]
         return tuple(vals) if isinstance(node, ast.Tuple) else vals
+    if isinstance(node, ast.JoinedStr):
+        # f"...{NAME}..." over folded text or integers, without conversion or format specification
+        out = ""
+        for v in node.values:
+            if isinstance(v, ast.Constant):
+                out += v.value
+            elif isinstance(v, ast.FormattedValue) and v.conversion == -1 and v.format_spec is None:
+                x = const_value(v.value, env)
+                if not isinstance(x, (str, int)) or isinstance(x, bool):
+                    raise ValueError("not a text constant")
+                out += str(x)
+            else:
+                raise ValueError("formatted value")
+        return out
     if isinstance(node, ast.Call) and call_name(node) == "ord" and len(node.args) == 1:
         return ord(const_value(node.args[0], env))
     if isinstance(node, ast.Call) and call_name(node) == "len" and len(node.args) == 1:
